@@ -112,16 +112,26 @@ def explore_all(cx):
     return cx.shared("c02.explore", make)
 
 
-def caller_states(cx, f, tables):
-    """union over the live call sites of f of the guarded pre-state of the receiver (GW lifting, B.2)"""
+def caller_states(cx, f, tables, depth=0, seen=None):
+    """union over the live call sites of f of the guarded pre-state of the receiver (GW lifting, B.2):
+    when a call site has no guard of its own and the receiver is a parameter of the caller, the
+    caller's callers decide (depth <= 3, cycle => top)"""
     m = cx.m
     pa = Prov(m, "alias")
+    seen = seen or set()
     out = set()
     for c in m.callers().get(f.q, []):
         if is_dead(m, c.fn):
             continue
         recv = pa.root(c.fn, c.args[0])
-        out |= gw_prestate(m, tables, pa, c, recv)
+        pre = gw_prestate(m, tables, pa, c, recv)
+        if len(pre) == len(T.STATES) and recv[0] == "param" and not recv[3] and depth < 3 and c.fn.q not in seen and "::{closure" not in c.fn.q:
+            # the caller passes its own parameter on unguarded: its callers decide
+            if recv[1] == 1:
+                lifted = caller_states(cx, c.fn, tables, depth + 1, seen | {f.q})
+                if lifted:
+                    pre = lifted
+        out |= pre
     return out
 
 
